@@ -1,6 +1,7 @@
 """Per-case recorder shared by all checks, and small numeric helpers."""
 import json
 import math
+import os
 
 import numpy as np
 
@@ -87,6 +88,9 @@ def jsonable(x, depth=0):
 
 
 def close(a, b, rtol=1e-8, atol=1e-10):
+    if os.environ.get("JV_X64", "1") == "0":
+        # JAX's default 32-bit mode: the real code computes in float32, the oracle in float64
+        rtol, atol = max(rtol, 5e-4), max(atol, 2e-5)
     a = np.asarray(a, dtype=np.float64)
     b = np.asarray(b, dtype=np.float64)
     if a.shape != b.shape:
